@@ -237,6 +237,40 @@ def _leaves(tree, known):
             yield from _leaves(sub, k)
 
 
+def _strip(e, known, memo):
+    """e with every division by (and multiplication with) a node whose value is exactly 1 on this path removed: x / 1 = x"""
+    from pysym import sym
+    r = memo.get(e.uid)
+    if r is not None:
+        return r
+    op, a = e.op, e.args
+    if op in ('const', 'var', 'pi'):
+        r = e
+    elif op == 'div':
+        x, y = _strip(a[0], known, memo), _strip(a[1], known, memo)
+        r = x if known.value(a[1]) == 1 else sym._bin('div', x, y)
+    elif op in ('add', 'sub', 'mul'):
+        r = sym._bin(op, _strip(a[0], known, memo), _strip(a[1], known, memo))
+    elif op == 'neg':
+        r = sym.neg(_strip(a[0], known, memo))
+    elif op == 'pow':
+        r = sym.power(_strip(a[0], known, memo), a[1])
+    elif op == 'fn':
+        r = sym.fn(a[0], *[_strip(x, known, memo) for x in a[1:]])
+    else:
+        r = e
+    memo[e.uid] = r
+    return r
+
+
+def _same_leaf_mod_units(ls, lb, known):
+    """leaf equality after x / 1 = x, where 1 is a norm the path proves to be 1 (second normalisation of a unit row)"""
+    if ls.kind != 'val' or lb.kind != 'val' or len(ls.flat) != len(lb.flat) or ls.shape != lb.shape:
+        return False
+    memo = {}
+    return all(key(_strip(x, known, memo)) == key(_strip(y, known, memo)) for x, y in zip(ls.flat, lb.flat))
+
+
 def _same_leaf(ls, lb):
     if ls.kind != lb.kind:
         return False
@@ -255,7 +289,7 @@ def compare(ts, tb, mode='equal'):
             continue            # the scalar side rejects (exception, or None): nothing is claimed
         for kb, lb in _leaves(tb, ks):
             n += 1
-            if not _same_leaf(ls, lb):
+            if not _same_leaf(ls, lb) and not _same_leaf_mod_units(ls, lb, kb):
                 bad.append({'scalar': ls.kind if ls.kind == 'val' else f'raise {ls.payload}',
                             'array': lb.kind if lb.kind == 'val' else f'raise {lb.payload}'})
     return {'ok': not bad, 'identical': identical, 'leaf_pairs': n, 'mismatches': bad[:5], 'n_mismatch': len(bad)}
